@@ -82,14 +82,33 @@ func propC18(p *Prog, r *Report) {
 		}
 		return true
 	})
-	if arrObj == nil || seqObj == nil || loop == nil || loop.Cond == nil {
+	// a search written as tail recursion: the function body is the step, a call of itself with a sub-window the next
+	// round, the test for the empty window the loop condition
+	isRec := false
+	if loop == nil && arrObj != nil && seqObj != nil {
+		ast.Inspect(fi.Decl.Body, func(x ast.Node) bool {
+			if rs, ok := x.(*ast.ReturnStmt); ok && len(rs.Results) == 1 {
+				if c, ok := ast.Unparen(rs.Results[0]).(*ast.CallExpr); ok && p.staticCallee(fi.Pkg, c) == fi {
+					isRec = true
+				}
+			}
+			return true
+		})
+	}
+	if arrObj == nil || seqObj == nil || (!isRec && (loop == nil || loop.Cond == nil)) {
 		r.Undecided("C18.a", kBinarySearch, p.pos(fi.Decl), "search loop over a slice parameter not found")
 		return
+	}
+	stepBody := fi.Decl.Body
+	var stepPos ast.Node = fi.Decl
+	if !isRec {
+		stepBody = loop.Body
+		stepPos = loop
 	}
 	// probe index variable: assigned in the loop body from len(arr)/2
 	var nObj types.Object
 	var nDef ast.Expr
-	ast.Inspect(loop.Body, func(x ast.Node) bool {
+	ast.Inspect(stepBody, func(x ast.Node) bool {
 		if as, ok := x.(*ast.AssignStmt); ok && len(as.Lhs) == len(as.Rhs) && nObj == nil {
 			// (alone or in a parallel assignment with other hoisted values: mid, last := len(arr)/2, len(arr)-1;
 			// the probe is the one computed by a division)
@@ -117,14 +136,16 @@ func propC18(p *Prog, r *Report) {
 		return true
 	})
 	if nObj == nil {
-		r.Undecided("C18.b", kBinarySearch+"#probe-index", p.pos(loop), "probe index assignment not found")
+		r.Undecided("C18.b", kBinarySearch+"#probe-index", p.pos(stepPos), "probe index assignment not found")
 		return
 	}
 	// the window may be kept as a pair of indices (lo, hi) into the unchanged slice instead of re-slicing it
-	if lo, hi, ok := indexWindow(info, loop); ok {
-		c18IndexWindow(p, r, fi, loop, arrObj, seqObj, nObj, nDef, lo, hi)
-		c18Tail(p, r, fi)
-		return
+	if !isRec {
+		if lo, hi, ok := indexWindow(info, loop); ok {
+			c18IndexWindow(p, r, fi, loop, arrObj, seqObj, nObj, nDef, lo, hi)
+			c18Tail(p, r, fi)
+			return
+		}
 	}
 	// C18.b: n = len(arr)/2 evaluated for L = 1..5 must be in [0, L-1]
 	okN := true
@@ -154,7 +175,38 @@ func propC18(p *Prog, r *Report) {
 	r.Check(okN && isMid, "C18.b", kBinarySearch+"#probe-index", p.pos(nDef), "probe index is the middle of the window", "the probe index is not the middle of the current window (len(arr)/2): it can leave the window")
 	// loop condition: runs while non-empty
 	condOK := false
+	if isRec {
+		// the empty window answers "not found" at once, a non-empty one goes on to the probe
+		condOK = true
+		for _, L := range []int64{0, 1} {
+			env := &Env{P: p, Pkg: fi.Pkg, Vars: map[types.Object]*Val{}}
+			l := L
+			env.Hook = func(env *Env, e ast.Expr) (*Val, bool) {
+				if c, ok := e.(*ast.CallExpr); ok && len(c.Args) == 1 {
+					if id, ok := c.Fun.(*ast.Ident); ok && id.Name == "len" {
+						return intVal(l), true
+					}
+				}
+				return nil, false
+			}
+			g := p.NewFlat(fi.Pkg, stepBody)
+			visited, exit, err := g.WalkPath(env)
+			stoppedAtNil := false
+			if err == nil {
+				if rs := g.returnStmt(exit); rs != nil && len(rs.Results) == 1 && isNilIdent(info, rs.Results[0]) {
+					stoppedAtNil = true
+				}
+			}
+			_ = visited
+			if (L == 0) != stoppedAtNil {
+				condOK = false
+			}
+		}
+	}
 	for _, L := range []int64{0, 1} {
+		if isRec {
+			break
+		}
 		env := &Env{P: p, Pkg: fi.Pkg, Vars: map[types.Object]*Val{}}
 		l := L
 		env.Hook = func(env *Env, e ast.Expr) (*Val, bool) {
@@ -175,9 +227,13 @@ func propC18(p *Prog, r *Report) {
 			break
 		}
 	}
-	r.Check(condOK, "C18.b", kBinarySearch+"#loop-condition", p.pos(loop.Cond), "searches while the window is non-empty", "the search loop does not run exactly while the window is non-empty")
+	var condPos ast.Node = stepPos
+	if !isRec {
+		condPos = loop.Cond
+	}
+	r.Check(condOK, "C18.b", kBinarySearch+"#loop-condition", p.pos(condPos), "searches while the window is non-empty", "the search loop does not run exactly while the window is non-empty")
 	// C18.a: step table
-	body := p.NewFlat(fi.Pkg, loop.Body)
+	body := p.NewFlat(fi.Pkg, stepBody)
 	type row struct {
 		AtN, AtN1 string
 		Last      bool
@@ -284,7 +340,29 @@ func propC18(p *Prog, r *Report) {
 					action = "error: " + err.Error()
 				} else {
 					n, _ := nPos()
-					if rs := body.returnStmt(exit); rs != nil && len(rs.Results) == 1 {
+					if rs := body.returnStmt(exit); rs != nil && len(rs.Results) == 1 && isRec && func() bool {
+						c, ok := ast.Unparen(rs.Results[0]).(*ast.CallExpr)
+						return ok && p.staticCallee(fi.Pkg, c) == fi && len(c.Args) == 2
+					}() {
+						// the next round: the window the function calls itself with
+						c := ast.Unparen(rs.Results[0]).(*ast.CallExpr)
+						wv, werr := env.Eval(c.Args[0])
+						if lo, hi, ok := bounds(wv); werr == nil && ok {
+							switch {
+							case lo == 0 && hi == n:
+								action = "left of n"
+							case lo == n+1 && hi == L:
+								action = "right of n"
+							default:
+								action = fmt.Sprintf("window := [%d, %d) of [0, %d) with n = %d", lo, hi, L, n)
+							}
+						} else {
+							action = "recursion with a window that is not a sub-slice"
+						}
+						if sv, serr := env.Eval(c.Args[1]); serr != nil || sv == nil || sv.C == nil || sv.C.ExactString() != fmt.Sprint(probe) {
+							action = "recursion with another probe"
+						}
+					} else if rs := body.returnStmt(exit); rs != nil && len(rs.Results) == 1 {
 						action = "return " + types.ExprString(rs.Results[0])
 						if v, err := env.Eval(rs.Results[0]); err == nil && v != nil && v.Ptr != nil && v.Ptr.Tag == "arr[n]" {
 							action = "return arr[n]"
@@ -329,7 +407,7 @@ func propC18(p *Prog, r *Report) {
 		}
 	}
 	r.Tables["search_step_table"] = rows
-	r.Check(good, "C18.a", kBinarySearch+"#step-table", p.pos(loop), fmt.Sprintf("%d rows agree with the specification of one search step", len(rows)), "a step of the snapshot lookup decides wrongly: "+detail)
+	r.Check(good, "C18.a", kBinarySearch+"#step-table", p.pos(stepPos), fmt.Sprintf("%d rows agree with the specification of one search step", len(rows)), "a step of the snapshot lookup decides wrongly: "+detail)
 	c18Tail(p, r, fi)
 }
 
@@ -347,6 +425,32 @@ func c18Tail(p *Prog, r *Report, fi *FuncInfo) {
 		if rs, ok := fi.Decl.Body.List[n-1].(*ast.ReturnStmt); ok && len(rs.Results) == 1 && c18IndexResult {
 			if v, isC := constInt(info, rs.Results[0]); isC && v < 0 {
 				nilAfter = c18AdapterMaps(p, fi)
+			}
+		}
+	}
+	// a recursive search: the empty window is answered with nil before anything else
+	if !nilAfter && len(fi.Decl.Body.List) > 0 {
+		if ifs, ok := fi.Decl.Body.List[0].(*ast.IfStmt); ok && ifs.Init == nil && len(ifs.Body.List) == 1 {
+			if rs, ok := ifs.Body.List[0].(*ast.ReturnStmt); ok && len(rs.Results) == 1 && isNilIdent(info, rs.Results[0]) {
+				env := &Env{P: p, Pkg: fi.Pkg, Vars: map[types.Object]*Val{}}
+				env.Hook = func(env *Env, e ast.Expr) (*Val, bool) {
+					if c, ok := e.(*ast.CallExpr); ok && len(c.Args) == 1 {
+						if id, ok := c.Fun.(*ast.Ident); ok && id.Name == "len" {
+							return intVal(0), true
+						}
+					}
+					return nil, false
+				}
+				if v, err := env.Eval(ifs.Cond); err == nil && v != nil && v.C != nil && v.C.ExactString() == "true" {
+					recursive := false
+					ast.Inspect(fi.Decl.Body, func(x ast.Node) bool {
+						if c, ok := x.(*ast.CallExpr); ok && p.staticCallee(fi.Pkg, c) == fi {
+							recursive = true
+						}
+						return true
+					})
+					nilAfter = recursive
+				}
 			}
 		}
 	}
